@@ -1,3 +1,4 @@
 import CmGen.NamedColors
 import CmGen.Templates
 import CmGen.StateSig
+import CmGen.Leaves
